@@ -15,6 +15,12 @@ pub trait KKTSolver<T: FloatT>: HasLinearSolverInfo {
     ) -> bool;
     fn update_P(&mut self, P: &CscMatrix<T>);
     fn update_A(&mut self, A: &CscMatrix<T>);
+
+    /// read-only copy of the assembled KKT system (verification hook)
+    #[cfg(feature = "verif")]
+    fn verif_snapshot(&self) -> Option<crate::verif_hooks::KktSnapshot<T>> {
+        None
+    }
 }
 
 pub trait HasLinearSolverInfo {
